@@ -112,9 +112,11 @@ where
 }
 
 /// C19 (feature `checks` only): a fixed-width write whose argument has a bit at
-/// or above the requested width panics. The harness is `#[kani::should_panic]`;
-/// reaching the end of the call is flagged with a non-panic failure (an
-/// arithmetic overflow), which makes a `should_panic` harness fail.
+/// or above the requested width panics. The harness ends in `assert(false)`: the
+/// driver (Obl.expect_panic) accepts it only if the single failed check is the
+/// library's own "does not fit" panic, i.e. if no path returns from the call.
+/// (`#[kani::should_panic]` with an arithmetic overflow as end marker was unsound
+/// for this purpose: Rust's overflow check is itself a panic.)
 #[cfg(feature = "checks")]
 pub fn write_bits_dirty_panics<E: VE, W: VW>()
 where
